@@ -1,7 +1,7 @@
 (* C15 — automatic reconnection restores service after loss and stops on request.
    Statements only (restated verbatim from Proofs/*.v), each closed by [exact]. *)
 From Coq Require Import ZArith List Bool Permutation.
-From WS Require Import Base.Res Base.Bytes Spec.Frame Spec.Legal Spec.AppTrace Gen.GenAbnf Model.Recv Model.Conn Model.App Proofs.RecvSpec Proofs.ConnSpec Proofs.ConnProof Proofs.AppProof.
+From WS Require Import Base.Res Base.Bytes Spec.Frame Spec.Legal Spec.AppTrace Gen.GenAbnf Model.Recv Model.Conn Model.App Proofs.RecvSpec Proofs.ConnSpec Proofs.ConnProof Proofs.AppProof Gen.GenApp Proofs.AppGen.
 Import ListNotations.
 Open Scope Z_scope.
 
@@ -27,6 +27,18 @@ Theorem C15_stop : forall cfg env1 env2, env1 <> [] -> run_ended cfg env1 ->
   run_forever cfg (env1 ++ env2) = run_forever cfg env1.
 Proof. exact AppProof.C15_stop. Qed.
 Print Assumptions C15_stop.
+
+(* CODE TIE: the outer loop asks for a reconnection exactly when setSock's regenerated first test (reconnecting and not keep_running: return) would not refuse it *)
+Theorem C15_reconnect_guard_is_the_code : forall cfg a rest r s,
+  attempts_loop cfg (a :: rest) r s =
+  match set_sock cfg a r s with
+  | (Kbd, s1) => (Kbd, s1)
+  | (Normal, s1) =>
+    if negb (reconnect cfg =? 0) && negb (app_reconnect_refused true (keep_running s1))
+    then attempts_loop cfg rest true s1 else (Normal, s1)
+  end.
+Proof. exact AppGen.reconnect_guard_gen. Qed.
+Print Assumptions C15_reconnect_guard_is_the_code.
 
 Theorem C15_stop_server_close : forall cfg fails fs closef junk env2,
   cfg_nice cfg -> Forall abnormal fails -> accepted (app_skip_utf8 cfg) fs -> a_opcode closef = 8 ->
